@@ -105,6 +105,15 @@ var bodyFiles = map[string]*facts.BodyFile{
 				Binders: "(raw : Bytes)",
 				Vals:    map[string]facts.Val{"recv.RawResult": {Lean: "raw", Ty: "bytes"}},
 				State:   []facts.StateVar{{Key: "recv.Result", Lean: "result", Ty: "bytes"}}},
+			{Dir: "response", Recv: "NetconfResponse", Name: "record1dot1Chunks", Lean: "record1dot1Chunks",
+				Doc: "`raw` = `r.RawResult`; state: `result` = `r.Result`. Every `errNetconf1Dot1ParseError(…)` is " +
+					"`some \"errNetconf1Dot1Error\"` (the message is not modelled).",
+				Binders: "(raw : Bytes)", BinderArgs: "raw",
+				Vals:    map[string]facts.Val{"recv.RawResult": {Lean: "raw", Ty: "bytes"}},
+				Funcs: map[string]facts.LibFn{
+					"errNetconf1Dot1ParseError": {AnyArgs: true, Ret: []string{"error"}, Tmpl: "(some \"errNetconf1Dot1Error\" : Go.Error)"},
+				},
+				State: []facts.StateVar{{Key: "recv.Result", Lean: "result", Ty: "bytes"}}},
 		},
 	},
 	// C05: channel/channel.go
